@@ -1,4 +1,23 @@
-"""C01 worker: energies of every model class under every samples_like encoding."""
+"""C01 worker: energies of every model class under every samples_like encoding.
+
+Coverage (property clause -> stream):
+  BQM float64 / float32 / object storage     kinds bqm64 / bqm32 / bqmobj (+ raw adjacency / _adj dicts fed to the loop models)
+  spin / binary views                        kind view, over a float64, float32 or object base ("vdtype")
+  QM                                         kind qm, float64 and float32 storage ("qdtype")
+  CQM objective / constraint / constant      cqm_obj / cqm_con / cqm_const, parent order shuffled, after a history of
+                                             remove_variable / fix_variable / relabel_variables on the parent
+  DQM                                        kind dqm: dict, labelled array, SampleSet; case out of range; a variable omitted
+  BinaryPolynomial                           kind poly: labelled array in any column order, dict, a variable omitted
+  sample forms                               dict, (array, labels) in a random column order with extra columns and narrow /
+                                             unsigned dtypes, list of dicts in differing key orders, SampleSet, the deprecated
+                                             (mapping, labels), an UNLABELLED array / list of rows / single flat row for models
+                                             labelled range(n) ("unlabelled"), zero rows ("zero_rows")
+  SampleSet storage                          float / int8 / int64 sample arrays, also a future-backed (pending) SampleSet
+  entry points                               energies on every case; energy (singular) whenever exactly one row is given;
+                                             the dtype= keyword of BQM / QM / view energies ("dtype_kw")
+  degenerate shapes                          0 variables, constant-only expression, no interactions, squared integer terms
+  rejection                                  a model variable omitted ("missing", every class), DQM case out of range
+"""
 from fractions import Fraction
 import warnings
 import numpy as np
@@ -12,7 +31,7 @@ import gen
 from gen import F, enc_label, dec_label, LabelTable, coq_obs, fs
 
 KINDS = ['bqm64', 'bqm32', 'bqmobj', 'view', 'qm', 'cqm_obj', 'cqm_con', 'cqm_const', 'dqm', 'poly', 'dicts', 'dicts']
-FORMS = ['dict', 'array', 'array_extra', 'dicts', 'sampleset', 'missing', 'mapping_labels']
+FORMS = ['dict', 'array', 'array_extra', 'dicts', 'sampleset', 'missing', 'mapping_labels']   # + 'unlabelled' for range labels
 
 
 def sample_value(rng, vt, lb, ub):
@@ -56,7 +75,7 @@ def gen_case(rng, tier):
         order = list(range(n))
         rng.shuffle(order)
         return {"kind": kind, "vartype": vartype, "terms": terms, "labels": [enc_label(l) for l in labels],
-                "vals": vals, "order": order}
+                "vals": vals, "order": order, "pform": rng.choice(['array', 'array', 'dict', 'missing'])}
     if kind == 'dqm':
         n = rng.randint(0, 4)
         labels = gen.rand_labels(rng, n)
@@ -79,7 +98,8 @@ def gen_case(rng, tier):
             i = rng.randrange(n)
             bad = [i, rng.choice([-2, -1, ncases[i], ncases[i] + 1])]
         return {"kind": kind, "labels": [enc_label(l) for l in labels], "ncases": ncases, "lin": lin, "quad": quad,
-                "off": str(rng.dyadic()), "sample": sample, "bad": bad, "form": rng.choice(['dict', 'array'])}
+                "off": str(rng.dyadic()), "sample": sample, "bad": bad,
+                "form": rng.choice(['dict', 'array', 'sampleset']), "omit": n > 0 and bad is None and rng.random() < 0.15}
     # quadratic models
     if kind in ('bqm64', 'bqm32', 'bqmobj', 'view'):
         desc = gen.rand_desc(rng, nmax=6, kinds=('BINARY', 'SPIN'), single_vartype=True,
@@ -88,16 +108,27 @@ def gen_case(rng, tier):
             desc["vartype"] = rng.choice(['BINARY', 'SPIN'])
     elif kind == 'cqm_const':
         desc = {"vars": [], "lin": [], "quad": [], "off": str(rng.dyadic())}
+    elif kind == 'qm' and rng.random() < 0.35:
+        desc = gen.rand_desc(rng, nmax=6, kmax=4, jmax=1)
+        desc["qdtype"] = 'f32'
     else:
         desc = gen.rand_desc(rng, nmax=6)
     extra = gen.rand_desc(rng, nmax=3)["vars"] if kind.startswith('cqm') else []
     have = {str(v[0]) for v in desc["vars"]}
     extra = [v for v in extra if str(v[0]) not in have]
     allvars = desc["vars"] + extra
+    range_labels = rng.random() < 0.25
+    if range_labels:
+        desc, extra = relabel_range(desc, extra)
+        allvars = desc["vars"] + extra
     rows = []
     for _ in range(rng.randint(1, 3)):
         rows.append([sample_value(rng, v[1], v[2], v[3]) for v in allvars])
+    if desc.get("qdtype") == 'f32':
+        rows = [[x if abs(x) < 100 else 7 for x in r] for r in rows]      # products stay exact in float32
     form = rng.choice(FORMS)
+    if range_labels and rng.random() < 0.6:
+        form = 'unlabelled'
     perm = list(range(len(allvars)))
     rng.shuffle(perm)
     perms = [perm]
@@ -107,6 +138,13 @@ def gen_case(rng, tier):
         perms.append(p2)
     c = {"kind": kind, "desc": desc, "extra": extra, "rows": rows, "form": form, "perms": perms,
          "view_flip": rng.random() < 0.5}
+    if kind == 'view':
+        c["vdtype"] = rng.choice(['f64', 'f64', 'f32', 'obj'])
+    if kind in ('bqm64', 'bqm32', 'bqmobj', 'view', 'qm'):
+        c["dtype_kw"] = rng.choice([None, None, 'float32', 'float64'])
+    if form in ('array', 'array_extra', 'unlabelled') and rng.random() < 0.06:
+        c["rows"] = []                      # zero rows
+        c["perms"] = [perm]
     if kind.startswith('cqm'):
         # the parent's variable order is independent of the expression's, and variables are removed from /
         # fixed in the parent (used by the expression or not) before the expression is evaluated
@@ -117,7 +155,10 @@ def gen_case(rng, tier):
         if allvars and rng.random() < 0.6:
             for i in rng.sample(range(len(allvars)), rng.randint(1, min(3, len(allvars)))):
                 vt = allvars[i][1]
-                if rng.random() < 0.6:
+                r = rng.random()
+                if r < 0.2 and form != 'unlabelled':
+                    hist.append(["relabel", i])
+                elif r < 0.6:
                     hist.append(["remove", i])
                 else:
                     hist.append(["fix", i, sample_value(rng, vt, allvars[i][2], allvars[i][3]) if vt != 'REAL' else 1])
@@ -125,11 +166,31 @@ def gen_case(rng, tier):
     return c
 
 
+def relabel_range(desc, extra):
+    """rename the variables to 0..n-1 in the order desc vars, then extra vars"""
+    import json
+    key = lambda l: json.dumps(l, sort_keys=True)
+    m = {key(v[0]): i for i, v in enumerate(desc["vars"] + extra)}
+    r = lambda l: m[key(l)]
+    d = dict(desc)
+    d["vars"] = [[r(v[0])] + list(v[1:]) for v in desc["vars"]]
+    d["lin"] = [[r(t[0]), t[1]] for t in desc["lin"]]
+    d["quad"] = [[r(t[0]), r(t[1]), t[2]] for t in desc["quad"]]
+    return d, [[r(v[0])] + list(v[1:]) for v in extra]
+
+
 def encode_samples(form, labels, rows, perms, drop=None):
     """build the samples_like object; returns (samples_like, logical labels)"""
     use = [i for i in range(len(labels)) if i != drop]
     if form == 'dict':
         return {labels[i]: rows[0][i] for i in perms[0] if i in use}, 1
+    if form == 'unlabelled':
+        # no labels at all: column j is the variable labelled j (valid for models labelled range(n))
+        if len(rows) == 1 and len(labels) % 2:
+            return list(rows[0]), 1                                  # a single flat row
+        if len(rows) and len(labels) and len(labels) % 3 == 0:
+            return [list(r) for r in rows], len(rows)                # list of rows
+        return np.array([list(r) for r in rows], dtype=float if any(isinstance(x, float) for r in rows for x in r) else np.int64).reshape(len(rows), len(labels)), len(rows)
     if form in ('array', 'array_extra', 'missing'):
         order = [i for i in perms[0] if i in use]
         arr = np.array([[r[i] for i in order] for r in rows], dtype=float if any(isinstance(x, float) for r in rows for x in r) else np.int64)
@@ -151,8 +212,21 @@ def encode_samples(form, labels, rows, perms, drop=None):
         return [{labels[i]: r[i] for i in p if i in use} for r, p in zip(rows, perms)], len(rows)
     if form == 'sampleset':
         order = [i for i in perms[0] if i in use]
+        isint = not any(isinstance(x, float) for r in rows for x in r)
         arr = np.array([[r[i] for i in order] for r in rows], dtype=float).reshape(len(rows), len(order))
-        ss = dimod.SampleSet.from_samples((arr, [labels[i] for i in order]), energy=[0] * len(rows), vartype='REAL')
+        if isint and arr.size and np.abs(arr).max() < 128 and len(order) % 2:
+            arr = arr.astype(np.int8)                     # narrow integer sample storage
+        elif isint and len(order) % 3 == 0:
+            arr = arr.astype(np.int64)
+        ss = dimod.SampleSet.from_samples((arr, [labels[i] for i in order]), energy=[0] * len(rows),
+                                          vartype='REAL' if arr.dtype.kind == 'f' else 'INTEGER')
+        if perms[0] and perms[0][0] % 2:
+            # a future-backed (not yet resolved) sample set: as_samples resolves it
+            import concurrent.futures
+            fut = concurrent.futures.Future()
+            pending = dimod.SampleSet.from_future(fut)
+            fut.set_result(ss)
+            return pending, len(rows)
         return ss, len(rows)
     raise ValueError(form)
 
@@ -209,7 +283,7 @@ def as_samples_case(sl, T, as_iter=False):
         seen = "(AsSamples.Err AsSamples.ValueError)"
     except TypeError:
         seen = "(AsSamples.Err AsSamples.TypeError)"
-    il = clist([cnat(T.idx(i)) for i in range(8)])
+    il = clist([cnat(T.idx(i)) for i in range(12)])      # default labels of an unlabelled array (up to 9 columns are generated)
     return f"(ASCase {il} {term} {seen})"
 
 
@@ -236,16 +310,37 @@ def run_case(c):
         terms = [(list(k), F(v)) for k, v in poly.items()]
         order = c["order"]
         arr = np.array([[r[i] for i in order] for r in c["vals"]], dtype=np.int8).reshape(len(c["vals"]), len(order))
+        pform = c.get("pform", 'array')
+        py_fail = None
+        used = [v for v in labels if any(v in k for k, _ in terms)]
+        if pform == 'missing' and used:
+            # a variable of the polynomial is omitted: must be rejected
+            keep = [i for i in order if labels[i] != used[0]]
+            try:
+                poly.energies((arr[:, [order.index(i) for i in keep]], [labels[i] for i in keep]))
+                py_fail = "BinaryPolynomial.energies accepted a sample that omits a variable of the polynomial"
+            except Exception as e:
+                feats["exc"] = type(e).__name__
+            feats["missing"] = True
+        vals = c["vals"]
+        if pform == 'dict':
+            vals = vals[:1]
+            sl = {labels[i]: vals[0][i] for i in order}
+        else:
+            sl = (arr, [labels[i] for i in order])
+        feats["form"] = pform
         try:
-            en = poly.energies((arr, [labels[i] for i in order]))
+            en = poly.energies(sl)
             seen = "(Some %s)" % clist([cq(F(e)) for e in en])
+            if len(vals) == 1 and F(poly.energy(sl)) != F(en[0]):
+                py_fail = "BinaryPolynomial.energy and energies disagree"
         except Exception as e:
             seen = "None"
             feats["exc"] = type(e).__name__
         hp = clist([cpair(clist([cnat(T.idx(x)) for x in k]), cq(b)) for k, b in terms])
         ls = clist([cnat(T.idx(labels[i])) for i in order])
-        rows = clist([clist([cq(r[i]) for i in order]) for r in c["vals"]])
-        return {"coq": f"(HCase {hp} {ls} {rows} {seen})", "features": feats, "nontrivial": bool(terms)}
+        rows = clist([clist([cq(r[i]) for i in order]) for r in vals])
+        return {"coq": f"(HCase {hp} {ls} {rows} {seen})", "py_fail": py_fail, "features": feats, "nontrivial": bool(terms)}
     if kind == 'dqm':
         labels = [dec_label(l) for l in c["labels"]]
         d = dimod.DQM()
@@ -277,15 +372,35 @@ def run_case(c):
         if c["bad"]:
             sample[c["bad"][0]] = c["bad"][1]
             feats["bad_case"] = c["bad"][1]
+        py_fail = None
         if c["form"] == 'dict':
             sl = {l: s for l, s in zip(labels, sample)}
+        elif c["form"] == 'sampleset' and not c["bad"]:
+            sl = dimod.SampleSet.from_samples((np.array([sample], dtype=np.int64).reshape(1, len(labels)), labels),
+                                              energy=[0], vartype='INTEGER')
         else:
             sl = (np.array([sample], dtype=np.int64).reshape(1, len(labels)), labels)
+        feats["form"] = c["form"]
         try:
             en = d.energies(sl)
             seen = "(Some %s)" % cq(F(en[0]))
+            if F(d.energy(sl)) != F(en[0]):
+                py_fail = "DQM.energy and energies disagree"
         except ValueError:
             seen = "None"
+        if c.get("omit") and labels:
+            # a sample that omits one of the model's variables must be rejected
+            feats["missing"] = True
+            try:
+                d.energies({l: s for l, s in list(zip(labels, sample))[1:]})
+                py_fail = "DQM.energies accepted a sample that omits a variable"
+            except (ValueError, KeyError) as e:
+                feats["exc"] = type(e).__name__
+            try:
+                d.energies((np.array([sample[:-1]], dtype=np.int64).reshape(1, len(labels) - 1), labels[:-1]))
+                py_fail = "DQM.energies accepted a labelled array that omits a variable"
+            except (ValueError, KeyError) as e:
+                feats["exc"] = type(e).__name__
         nc = clist([cpair(cnat(i), cnat(k)) for i, k in enumerate(c["ncases"])])
         row = clist([cpair(cnat(i), cz(s)) for i, s in enumerate(sample)])
         # the code-shaped loop on the observed raw vectors, for a multi-row labelled matrix in a shuffled column order
@@ -315,14 +430,17 @@ def run_case(c):
         ls2 = clist([cnat(T.idx(labels[i])) for i in order])
         rows2 = clist([clist([cz(int(x)) for x in r]) for r in arr])
         extra.append(f"(DLoop {starts} {vlin} {vquad} {cq(F(d.offset))} {adjv} {vars_} {ls2} {rows2} {seen2})")
-        return {"coq": f"(DCase {o} {cnat(stride)} {nc} {row} {seen})", "extra_coq": extra, "features": feats,
+        return {"coq": f"(DCase {o} {cnat(stride)} {nc} {row} {seen})", "extra_coq": extra, "py_fail": py_fail, "features": feats,
                 "nontrivial": bool(labels)}
     # quadratic models
     desc = c["desc"]
     allvars = desc["vars"] + c["extra"]
     labels = [dec_label(v[0]) for v in allvars]
     if kind in ('bqm64', 'bqm32', 'bqmobj', 'view'):
-        dtype = {'bqm64': np.float64, 'bqm32': np.float32, 'bqmobj': object, 'view': np.float64}[kind]
+        dtype = {'bqm64': np.float64, 'bqm32': np.float32, 'bqmobj': object,
+                 'view': {'f64': np.float64, 'f32': np.float32, 'obj': object}[c.get("vdtype", 'f64')]}[kind]
+        if kind == 'view':
+            feats["vdtype"] = c.get("vdtype", 'f64')
         m = gen.build_bqm(desc, dtype=dtype)
         if kind == 'view':
             # evaluate through the live view of the other vartype: samples are in the view's domain
@@ -336,7 +454,8 @@ def run_case(c):
             rows = c["rows"]
         target = m
     elif kind == 'qm':
-        target = gen.build_qm(desc)
+        target = gen.build_qm(desc, dtype=np.float32 if desc.get("qdtype") == 'f32' else None)
+        feats["qdtype"] = desc.get("qdtype", 'f64')
         rows = c["rows"]
     else:
         cqm = dimod.ConstrainedQuadraticModel()
@@ -356,8 +475,14 @@ def run_case(c):
         # edit history on the parent: the expression must still evaluate to the polynomial it reports
         for op in c.get("cqm_hist", []):
             v = dec_label(allvars[op[1]][0])
+            v = labels[op[1]]
             if op[0] == "remove":
                 cqm.remove_variable(v)
+            elif op[0] == "relabel":
+                new = ('r', op[1])
+                cqm.relabel_variables({v: new})
+                labels[op[1]] = new
+                feats["relabelled"] = True
             else:
                 cqm.fix_variable(v, op[2])
             feats["hist"] = True
@@ -373,9 +498,24 @@ def run_case(c):
             drop = labels.index(mvars[0])
             feats["missing"] = True
     sl, nrows = encode_samples(form, labels, rows, c["perms"], drop)
+    py_fail = None
+    if not rows:
+        feats["zero_rows"] = True
     try:
         en = target.energies(sl)
         seen = "(Some %s)" % clist([cq(F(e)) for e in np.atleast_1d(en)])
+        if nrows == 1 and len(np.atleast_1d(en)) == 1:
+            # the singular entry point
+            e1 = target.energy(sl)
+            if F(e1) != F(np.atleast_1d(en)[0]):
+                py_fail = f"energy() returned {e1!r}, energies() {en!r}"
+        dk = c.get("dtype_kw")
+        if dk and kind in ('bqm64', 'bqm32', 'bqmobj', 'view', 'qm'):
+            # the dtype keyword only casts the result
+            e2 = target.energies(sl, dtype=np.dtype(dk))
+            if e2.dtype != np.dtype(dk) or not np.array_equal(e2, np.asarray(en, dtype=np.float64).astype(np.dtype(dk))):
+                py_fail = f"energies(dtype={dk}) returned {e2!r} ({e2.dtype}), energies() {en!r}"
+            feats["dtype_kw"] = dk
     except (ValueError, KeyError) as e:
         seen = "None"
         feats["exc"] = type(e).__name__
@@ -418,7 +558,7 @@ def run_case(c):
         pvars = clist([cnat(T.idx(v)) for v in pv])
         xe = f"(mkX {clist([cnat(i) for i in idx])} (qm_of_raw {rvts} {rlin} {rquad} {cq(F(target.offset))}))"
         extra.append(f"(XCase {cnat(len(T))} {cobs} {xe} {pvars} {ls} {crows} {seen})")
-    return {"coq": f"(QCase {cobs} {vars_} {ls} {crows} {seen})", "extra_coq": extra, "features": feats,
+    return {"coq": f"(QCase {cobs} {vars_} {ls} {crows} {seen})", "extra_coq": extra, "py_fail": py_fail, "features": feats,
             "nontrivial": bool(o["lin"] or o["quad"]) or kind == 'cqm_const'}
 
 
